@@ -1367,6 +1367,215 @@ def _construction_replay(case, cap):
                                             _construction_child(cap)))
 
 
+# ---------------------------------------------------------------- low gammatone orders, measured
+#
+# A first-order gammatone (a one-pole filter) falls off like 1/f: its documented support spans less than
+# half the sampling rate only when the band is a few thousandths of the rate wide, which none of the
+# design ranges is.  This lattice gives such bands: two filters on a linear scale whose band edges are
+# rate/8000 apart, so that order 1 (without L2 scaling) and order 2 (every flag combination) are INSIDE
+# the property's domain and are measured by the oracle of `response` (gain, peak, crossings / ERB, L2 norm).
+# With scale_l2_norm the documented peak of an order-1 filter is sqrt(2/alpha) and it is outside the domain
+# at every feasible width (counted as out_of_domain).
+
+LOW_ORDER_CAP = 120000
+
+
+def low_order_lattice(tier):
+    rates = (1000, 8000, 16000) if tier == "thorough" else (8000,)
+    scales = ("linear", "mel") if tier == "thorough" else ("linear",)
+    out = []
+    for rate in rates:
+        low = rate / 8.0
+        for sc in scales:
+            for fl in flag_sets("gammatone", (1, 2)):
+                out.append(dict(name="gammatone", num_filts=2, low_hz=low, high_hz=low + 3.0 * rate / 8000.0,
+                                sampling_rate=rate, scaling_function=sc, **fl))
+    # the expensive ones (order 1) first
+    return sorted(out, key=lambda b: b["order"])
+
+
+# ---------------------------------------------------------------- numpy's floating-point error state
+#
+# A response is a function of (configuration, filter, width, half): what numpy is told to do about
+# floating-point exceptions (np.seterr / np.errstate, a process-wide setting of the CALLER) is not an
+# argument.  Every cell of this lattice is clean on the unchanged tree under
+# np.errstate(divide="raise", over="raise", invalid="raise") - no operation of the library divides by
+# zero, overflows or produces NaN there (probed: 1712 banks x 2 filters x 6 calls) - so the same objects
+# and values are demanded under that state as under numpy's default state.  Underflow is left alone
+# (a Gaussian tail underflows legitimately).
+
+ERR_RAISE = dict(divide="raise", over="raise", invalid="raise")
+ERR_CALLS = (("imp", 64), ("imp", 700), ("freq", 64, False), ("freq", 257, True), ("freq", 64, True))
+ERR_PROPS = ("centers_hz", "supports_hz", "supports")
+
+
+def errstate_lattice(tier):
+    nfs = (1, 3, 11) if tier == "thorough" else (1, 3)
+    return bank_lattice(ALL_KINDS, nfs, (1000, 16000), orders=(1, 2, 4),
+                        ranges_fn=lambda kind, rate: [(0.0, None), (100.0, 0.8 * rate / 2.0)])
+
+
+def _errstate(b):
+    tags = bank_tags(b)
+    with warnings.catch_warnings():
+        warnings.simplefilter("ignore", RuntimeWarning)
+        with np.errstate(divide="warn", over="warn", invalid="warn", under="ignore"):
+            r0 = build(b)
+        if r0[0] != "ok":
+            return unconstructible(r0)
+        viol, seen = [], set()
+
+        def bad(what, call, detail, i=None, **more):
+            key = (what, call) + tuple(sorted(more.items()))
+            if key not in seen:
+                viol.append(core.violation(dict(tags, what=what, call=call, **more), detail, dict(bank=b, filt=i)))
+            seen.add(key)
+
+        with np.errstate(**ERR_RAISE):
+            r1 = build(b)
+        if r1[0] != "ok":
+            bad("errstate_exception", "constructor", "the constructor raised %s (%s) under np.errstate(%s) and "
+                "succeeded under numpy's default error state" % (r1[1], r1[2], ERR_RAISE), exc=r1[1])
+            return core.result(viol, obs=("ctor", r1[1]))
+        bank0, bank1 = r0[1], r1[1]
+        evals = 0
+        for p in ERR_PROPS:
+            evals += 1
+            with np.errstate(divide="warn", over="warn", invalid="warn", under="ignore"):
+                a = computers.call(getattr, bank0, p)
+            with np.errstate(**ERR_RAISE):
+                c = computers.call(getattr, bank1, p)
+            if a[0] == "ok" and c[0] != "ok":
+                bad("errstate_exception", p, "%s raised %s (%s) under np.errstate(%s) and not under the default "
+                    "state" % (p, c[1], c[2], ERR_RAISE), exc=c[1])
+            elif a[0] == "ok" and computers.canon_value(a[1]) != computers.canon_value(c[1]):
+                bad("errstate_values", p, "%s differs between np.errstate(%s) and the default state: %r vs %r" % (
+                    p, ERR_RAISE, c[1], a[1]))
+        for i in sorted({0, b["num_filts"] - 1}):
+            for spec in ERR_CALLS:
+                c_ = [spec[0], i] + list(spec[1:])
+                evals += 1
+                with np.errstate(divide="warn", over="warn", invalid="warn", under="ignore"):
+                    a = do_call(bank0, c_)
+                with np.errstate(**ERR_RAISE):
+                    c = do_call(bank1, c_)
+                if a[0] != "ok":
+                    continue        # what the call does under the default state is judged elsewhere
+                if c[0] != "ok":
+                    bad("errstate_exception", call_name(c_), "%s raised %s (%s) under np.errstate(%s); under "
+                        "numpy's default error state it returns a result" % (call_text(c_), c[1], c[2], ERR_RAISE),
+                        i, exc=c[1])
+                elif not _bits_equal(_parts(a), _parts(c)):
+                    bad("errstate_values", call_name(c_), "%s under np.errstate(%s) differs from the result under "
+                        "the default state: %s" % (call_text(c_), ERR_RAISE, _close(_parts(c), _parts(a), 0.0)), i)
+    return core.result(viol, evals=evals, nontrivial_count=evals, obs=(b["name"], sorted(map(str, seen))),
+                       sample=dict(bank=b, calls=[list(c) for c in ERR_CALLS]))
+
+
+# ---------------------------------------------------------------- scaling-function OBJECTS with a past
+#
+# LinearScaling.low_hz / slope_hz and OctaveScaling.low_hz are documented public attributes.  The scale a
+# bank is laid out on is the scale object AS IT IS when the bank is constructed: an object whose attributes
+# were re-assigned after its construction (directly, after it was already used, or on a copy.copy /
+# copy.deepcopy / pickle round trip of a template object) must give the layout of a freshly constructed
+# scale with those parameters, and the template that was copied must keep its own.
+
+SCALE_ROUTES = ("assign", "assign_after_use", "copy", "deepcopy", "pickle")
+SCALE_TEMPLATES = {"linear": ({"name": "linear", "low_hz": 0.0, "slope_hz": 1.0},
+                              {"name": "linear", "low_hz": 300.0, "slope_hz": 0.01}),
+                   "octave": ({"name": "octave", "low_hz": 20.0}, {"name": "octave", "low_hz": 440.0})}
+
+
+def scale_object_points(tier):
+    nfs = (1, 3, 11) if tier == "thorough" else (3, 11)
+    banks = bank_lattice(PARAM_KINDS, nfs, (1000, 16000), orders=(4,), scales=PARAM_SCALES)
+    if tier != "thorough":
+        # the layout does not depend on the flags: default flags, and one non-default combination per class
+        keep = (dict(analytic=False), dict(analytic=True), dict(erb=False, scale_l2_norm=False),
+                dict(erb=True, scale_l2_norm=True))
+        banks = [b for b in banks if any(all(b.get(k) == v for k, v in f.items()) for f in keep)
+                 and (b["name"] != "gammatone" or b["max_centered"] == b["erb"])]
+    out = []
+    for b in banks:
+        for t in range(2):
+            for route in SCALE_ROUTES:
+                out.append(dict(bank=b, template=t, route=route))
+    return out
+
+
+def _bank_on(b, scale_obj):
+    from pydrobert.speech import filters
+
+    kw = {k: v for k, v in b.items() if k not in ("name", "scaling_function", "threshold")}
+    cls = {"tri": filters.TriangularOverlappingFilterBank, "gabor": filters.GaborFilterBank,
+           "gammatone": filters.ComplexGammatoneFilterBank}[b["name"]]
+    return cls(scale_obj, **kw)
+
+
+def _reparameterised(template, new, route):
+    """-> (scale object carrying the parameters `new`, the template object or None)"""
+    import pickle
+
+    t = cfg.make_scale(template)
+    if route == "assign":
+        s, t = t, None
+    elif route == "assign_after_use":
+        t.hertz_to_scale(1000.0), t.scale_to_hertz(t.hertz_to_scale(2000.0))
+        s, t = t, None
+    elif route == "copy":
+        s = copy.copy(t)
+    elif route == "deepcopy":
+        s = copy.deepcopy(t)
+    elif route == "pickle":
+        s = pickle.loads(pickle.dumps(t))
+    else:
+        raise core.HarnessError("unknown route %r" % (route,))
+    for k, v in new.items():
+        if k != "name":
+            if not hasattr(s, k):
+                raise core.HarnessError("scale %r has no attribute %r" % (s, k))
+            setattr(s, k, v)
+    return s, t
+
+
+@quiet
+def _scale_object(pt):
+    b, route = pt["bank"], pt["route"]
+    new = b["scaling_function"]
+    template = SCALE_TEMPLATES[new["name"]][pt["template"]]
+    s, t = _reparameterised(template, new, route)
+    viol = []
+    evals = nontriv = 0
+    todo = [(b, s, "reparameterised")]
+    if t is not None:
+        bt = dict(b, scaling_function=template)
+        if template["name"] != "octave" or b["low_hz"] >= template["low_hz"]:
+            todo.append((bt, t, "template"))
+    notes = []
+    for conf, obj, which in todo:
+        r = computers.call(_bank_on, conf, obj)
+        if r[0] != "ok":
+            # a fresh scale with these parameters decides whether the configuration is constructible
+            notes.append("unconstructible" if build(conf)[0] != "ok" else "object_only_unconstructible")
+            if notes[-1] == "object_only_unconstructible":
+                viol.append(core.violation(
+                    dict(bank_tags(conf), what="exception", scale_object=route, judged=which, exc=r[1]),
+                    "bank on a %s scale object (%s of %r, then set to %r) raised %s: %s; a fresh scale with these "
+                    "parameters is accepted" % (new["name"], route, template, new, r[1], r[2]), pt))
+            continue
+        res = _layout(conf, r[1])
+        evals += res.get("evals", 1)
+        nontriv += res.get("nontrivial_count", 0)
+        for v in res["viol"]:
+            viol.append(core.violation(
+                dict(v["tags"], scale_object=route, judged=which),
+                "scale object built as %r, route %s, attributes then set to %r; bank on the %s object: %s" % (
+                    template, route, new, which, v["detail"]), pt))
+    return core.result(viol, evals=evals, nontrivial_count=nontriv,
+                       obs=(b["name"], new["name"], route, sorted(notes), sorted(set(v["tags"]["what"] for v in viol))),
+                       sample=pt)
+
+
 # ---------------------------------------------------------------- registration
 
 
@@ -1418,6 +1627,9 @@ def subchecks(tier, seed):
                           "%d banks (mel / linear, 8 / 16 kHz, every range and flag combination, gammatone orders "
                           "2 and 4); every tolerance is taken from the value in force" % (THRESHOLDS, len(thr)))
     hist_banks = history_banks(tier)
+    low_order = low_order_lattice(tier)
+    err_banks = errstate_lattice(tier)
+    scale_pts = scale_object_points(tier)
     hist_alpha = 3 * 2 * len(HISTORY_WIDTHS)
     return [
         core.SubCheck(
@@ -1502,4 +1714,38 @@ def subchecks(tier, seed):
                       rate=sorted(set(b["sampling_rate"] for b in hist_banks)), width=list(HISTORY_WIDTHS),
                       depth=3 if tier == "thorough" else 2, alphabet=hist_alpha),
             replay=history_replay, chunk=1, kind="histories"),
+        core.SubCheck(
+            "response_low_order", low_order, lambda b: _response(b, LOW_ORDER_CAP),
+            "gammatone banks of order 1 and 2 whose bands are narrow enough for their documented support to span < "
+            "rate/2 (2 filters, band edges rate/8000 apart on a linear scale, rates %r) x erb x scale_l2_norm x "
+            "max_centered: the oracle of `response` (finite impulse response, gain 1 / unit L2 norm, peak, 3 dB "
+            "crossings / ERB) on every filter. non-trivial = the filter is inside the domain (order 1 with "
+            "scale_l2_norm never is: its documented peak is sqrt(2/alpha))" % (
+                sorted(set(b["sampling_rate"] for b in low_order)),),
+            axes=dict(order=[1, 2], erb=[False, True], scale_l2_norm=[False, True], max_centered=[False, True],
+                      rate=sorted(set(b["sampling_rate"] for b in low_order)), ir_cap=LOW_ORDER_CAP),
+            replay=_replay_bank(lambda b: _response(b, LOW_ORDER_CAP)), chunk=1),
+        core.SubCheck(
+            "errstate", err_banks, _errstate,
+            "environment: 4 classes x 4 scales x num_filts x rates {1000, 16000} x 2 ranges x every flag combination "
+            "(gammatone orders 1, 2, 4) x {constructor, centers_hz, supports_hz, supports, and for the first and "
+            "last filter get_impulse_response at 64 / 700, get_frequency_response at 64 / 257 half / 64 half}: "
+            "under np.errstate(divide='raise', over='raise', invalid='raise') nothing raises that does not raise "
+            "under numpy's default error state and every value is bit-identical (two objects, one built and used "
+            "in each state). evaluations = calls compared",
+            axes=dict(bank=sorted(CLASSNAME), order=[1, 2, 4], num_filts=sorted(set(b["num_filts"] for b in err_banks)),
+                      rate=[1000, 16000], errstate=ERR_RAISE, calls=[list(c) for c in ERR_CALLS] + list(ERR_PROPS),
+                      unclean_on_unchanged_tree=0),
+            replay=_replay_bank(_errstate), chunk=8),
+        core.SubCheck(
+            "scale_objects", scale_pts, _scale_object,
+            "banks (triangular / Gabor / gammatone x num_filts x rates {1000, 16000} x ranges x flags) laid out on a "
+            "scaling-function OBJECT with a past: constructed with template parameters (2 templates per scale) and "
+            "then given every parameter set of the re-parameterised scales by assigning its documented public "
+            "attributes (low_hz, slope_hz) - directly, after the object was used, or on a copy.copy / copy.deepcopy "
+            "/ pickle round trip of the template: the oracle of `layout` with the NEW parameters; a bank on the "
+            "copied template is judged with the template's parameters. evaluations = filters",
+            axes=dict(route=list(SCALE_ROUTES), templates=SCALE_TEMPLATES, new_parameters=list(PARAM_SCALES),
+                      bank=[CLASSNAME[k] for k in PARAM_KINDS]),
+            replay=_scale_object, chunk=16),
     ]
